@@ -178,3 +178,58 @@ func VfC19Request() {
 		vf.Reach("name-error")
 	}
 }
+
+// VfC19Configured: the configuration is built by the REAL parser
+// (config.MakeTestConfig -> Store.parse) from names as an administrator writes
+// them - a friend called alice / Alice / ALICE, a resolve entry spelled
+// files.myco / Files.Myco. - and a request arrives with the name in any case.
+// DNS names are case-insensitive: the friend (resp. the resolve entry) answers,
+// whatever stored mappings exist for the lower-case spelling of the same name.
+func VfC19Configured() {
+	friendSpell := []string{"alice", "Alice", "ALICE"}[vf.Choose(3)]
+	resolveSpell := []string{"files.myco", "Files.Myco."}[vf.Choose(2)]
+	st := config.Store{
+		FriendConfigs: []config.FriendConfig{{Name: friendSpell, IP: "fd1f::a"}},
+		ResolveConfig: map[string]string{resolveSpell: "fd1f::b"},
+	}
+	cfg := config.MakeTestConfig(st)
+	maps := &vfMappings{m: map[string]netip.Addr{}}
+	bad := netip.MustParseAddr("fd1f::bad")
+	if vf.Bool() {
+		maps.m["alice.myco"] = bad
+	}
+	if vf.Bool() {
+		maps.m["files.myco"] = bad
+	}
+	srv := &Server{instance: &vfInst{cfg: cfg}, mappings: maps,
+		apiNames: []string{"router.myco", "open.myco"}, forbiddenNames: []string{"wpad.myco", "myco.myco"}}
+	srv.dnsServer = &mdns.Server{PacketConn: vfPC{}}
+
+	var name, want string
+	if vf.Bool() {
+		name, want = []string{"alice.myco.", "Alice.myco.", "ALICE.MYCO."}[vf.Choose(3)], "fd1f::a"
+	} else {
+		name, want = []string{"files.myco.", "FILES.myco."}[vf.Choose(2)], "fd1f::b"
+	}
+	r := new(mdns.Msg)
+	r.Question = []mdns.Question{{Name: name, Qtype: mdns.TypeAAAA, Qclass: mdns.ClassINET}}
+	w := &vfRW{}
+	srv.handleRequest(vfWk, w, r)
+	vf.Assert(len(w.msgs) == 1, "not-exactly-one-reply")
+	rep := w.msgs[0]
+	vf.Assert(rep.Rcode == mdns.RcodeSuccess, "configured-name-not-answered")
+	found, shadowed := false, false
+	for _, rr := range append(append([]mdns.RR{}, rep.Answer...), rep.Extra...) {
+		if t, ok := rr.(*mdns.TXT); ok {
+			if strings.Contains(t.Txt[0], "AAAA "+want) {
+				found = true
+			}
+			if strings.Contains(t.Txt[0], "AAAA fd1f::bad") {
+				shadowed = true
+			}
+		}
+	}
+	vf.Assert(!shadowed, "stored-mapping-shadows-configured-name")
+	vf.Assert(found, "answer-without-the-configured-address")
+	vf.Reach("configured-answered")
+}
